@@ -549,6 +549,18 @@ def _sum_elements(items):
     return r
 
 
+def _np_issubdtype(a, b):
+    """the arrays of the model hold real numbers, i.e. they stand for floating-point arrays (like isrealobj / iscomplexobj
+    below): the dtype of a modelled array is no integer type and is a floating type; integer-typed arrays are outside the
+    model (bounded native cases cover them); anything else stays unmodelled"""
+    if isinstance(a, Opaque) and a.what == "dtype" and isinstance(b, TypeTag):
+        if b.name == "Integral":
+            return False
+        if b.name == "float":
+            return True
+    return Opaque("issubdtype")
+
+
 def _np_sum(interp):
     def f(x, axis=None, **k):
         if isinstance(x, (list, tuple)):
@@ -858,7 +870,7 @@ def make_numpy(interp):
         "float64": TypeTag("float", _to_float), "int64": TypeTag("int", _to_int), "integer": TypeTag("Integral", None),
         "floating": TypeTag("float", None), "complexfloating": TypeTag("complex", None), "bool_": TypeTag("bool", None),
         "complex128": TypeTag("complex", None), "isrealobj": lambda x: True, "iscomplexobj": lambda x: False,
-        "iscomplex": lambda x: False, "issubdtype": lambda a, b: Opaque("issubdtype"),
+        "iscomplex": lambda x: False, "issubdtype": _np_issubdtype,
         "errstate": Opaque("np.errstate"), "dtype": lambda x: Opaque("dtype"),
         "result_type": lambda *a: Opaque("dtype"), "random": Opaque("np.random"), "nditer": Opaque("np.nditer"),
         "squeeze": lambda x, **k: x, "flatnonzero": Opaque("flatnonzero"),
